@@ -7,7 +7,8 @@ package main
 //            Whoever dialled a connection has long been served when it is killed, so every exchange
 //            hit by a kill is on a connection reused from the pool, the server is healthy, and the
 //            retry lands on a connection that lives for another 40+ queries: every exchange must
-//            succeed, in time. (Judged: exchanges that fail although the transport retried them - the
+//            succeed, in time. On the pipelined transports every other reply is followed by an
+//            unsolicited reply carrying an id that was already answered (to be ignored). (Judged: exchanges that fail although the transport retried them - the
 //            error lists several attempts. A single-attempt failure means the transport took the
 //            connection for freshly dialled, which a starved caller can legitimately run into.)
 // fallback - the TCP leg of a UDP upstream (UDP reply with TC=1) against a TCP side that stays
@@ -61,12 +62,19 @@ func c14ChurnOnce(seed int64, tname string, workers, per int) *c14ChurnRun {
 	}
 	defer b.close()
 	var kills atomic.Int64
+	pipelined := strings.Contains(tname, "pipeline")
 	b.setScript(func(q *scripted.Query) scripted.Action {
 		k := 40 + (q.Conn*37+int(seed))%41
 		if q.ConnSeq == k {
 			kills.Add(1)
 			end := []scripted.EndKind{scripted.EndFIN, scripted.EndRST, scripted.EndHalfClose}[q.Conn%3]
 			return scripted.Action{Tag: "reply-then-kill", End: end}
+		}
+		if pipelined && q.ConnSeq%2 == 1 {
+			// a duplicate-looking reply for an id that was already answered on this connection: nobody
+			// waits for it, the transport must drop it - while other callers enter and leave the
+			// connection's table of waiting exchanges
+			return scripted.Action{Tag: "echo", After: []scripted.Extra{{Kind: scripted.ExtraUnsolicited, IDMode: scripted.IDAnswered}}}
 		}
 		return scripted.Action{Tag: "echo"}
 	})
@@ -90,6 +98,7 @@ func c14ChurnOnce(seed int64, tname string, workers, per int) *c14ChurnRun {
 	defer c14CloseGuarded(tr)
 	var mu sync.Mutex
 	var seq atomic.Int64
+	var stop atomic.Bool
 	one := func() {
 		n := seq.Add(1)
 		name := fmt.Sprintf("churn%d.%s.c14.test.", n, tname)
@@ -126,6 +135,9 @@ func c14ChurnOnce(seed int64, tname string, workers, per int) *c14ChurnRun {
 		}
 		if took > deadline+c14Slack {
 			run.Late = append(run.Late, rec)
+			if len(run.Late) >= 6 {
+				stop.Store(true) // a frozen transport: every further exchange would take the watchdog's limit
+			}
 		}
 		mu.Unlock()
 	}
@@ -135,7 +147,7 @@ func c14ChurnOnce(seed int64, tname string, workers, per int) *c14ChurnRun {
 		wg.Add(1)
 		go func() {
 			defer wg.Done()
-			for i := 0; i < per; i++ {
+			for i := 0; i < per && !stop.Load(); i++ {
 				one()
 			}
 		}()
@@ -218,8 +230,15 @@ func c14Churn(c *Ctx) {
 			continue
 		}
 		// confirmation on a fresh server and transport: the schedule differs, the claim does not
-		again := c14ChurnOnce(c.Seed+int64(ti)+1000, tname, workers, per)
-		c.Ev.Count("churn_confirmation_runs", 1)
+		// (up to three: a frozen transport needs its own unlucky interleaving in every run)
+		var again *c14ChurnRun
+		for k := 0; k < 3; k++ {
+			again = c14ChurnOnce(c.Seed+int64(ti)+1000*int64(k+1), tname, workers, per)
+			c.Ev.Count("churn_confirmation_runs", 1)
+			if (len(run.Failed) > 0 && len(again.Failed) > 0) || (len(run.Late) > 0 && len(again.Late) > 0) {
+				break
+			}
+		}
 		switch {
 		case len(run.Failed) > 0 && len(again.Failed) > 0:
 			f := run.Failed[0]
